@@ -25,7 +25,8 @@ class Script:
     SETTINGS(MAX_CONCURRENT_STREAMS=v), RST_STREAM on one stream, PING."""
 
     def __init__(self, expect: int, picks: list[int], batch_cuts: list[int], settings_at: int, settings_val: int,
-                 rst_stream: int, ping_at: int, warm: bool) -> None:
+                 rst_stream: int, ping_at: int, warm: bool, fcut: int = 0) -> None:
+        self.fcut = fcut  # > 0: everything is sent at once, but arrives as two reads, the first one ending after frame #fcut
         self.expect = expect
         self.picks = picks
         self.batch_cuts = batch_cuts
@@ -92,6 +93,9 @@ class Script:
         if self.ping_at >= 0:
             merged.insert(min(self.ping_at, len(merged)), lambda: srv.conn.ping(b"12345678"))
         cuts = sorted(set(c for c in self.batch_cuts if 0 < c < len(merged)))
+        if self.fcut:
+            cuts = []
+            self.fcut = min(self.fcut, len(merged) - 1) if len(merged) > 1 else 0
         prev = 0
         for c in cuts + [len(merged)]:
             self.batches.append(merged[prev:c])
@@ -107,7 +111,12 @@ class Script:
             self.build()
         if not self.batches:
             return False
-        for f in self.batches.pop(0):
+        for i, f in enumerate(self.batches.pop(0)):
+            if self.fcut and i == self.fcut:
+                # both segments are in flight together; the client's reads end at the segment boundary
+                self.srv.flush()
+                sock.net.cuts = [sock.produced + len(self.srv.out)]
+                self.fcut = 0
             f()
         self.srv.flush()
         sock.pump()
@@ -129,8 +138,11 @@ class Script:
         "_pre": "sv in (0, 6) and sa <= 3 and rst == 0 and ping == 0 and b0 == 0 and p1 == 0 and p2 == 0 and p3 == 0 and p4 == 0 and p5 == 0 and aband == 0 and d0 <= 12"}
        for adv in (1, 2) for cold in (False, True)]
     + [{"S": 3, "mode": "order3", "_pre": f"sv == 0 and rst == 0 and ping == 0 and b0 == 0 and p0 == {a} and aband == 0 and d0 == 0 and c0 == 0"} for a in range(3)]
-    + [{"S": 3, "mode": "settings3", "_pre": "rst == 0 and ping == 0 and b0 == 0 and p1 == 0 and p2 == 0 and p3 == 0 and p4 == 0 and p5 == 0 and aband == 0 and d0 == 0 and c0 == 0"}],
-    thorough=[{"S": 3, "mode": "all3", "_timeout": 900,
+    + [{"S": 3, "mode": "settings3", "_pre": "rst == 0 and ping == 0 and b0 == 0 and p1 == 0 and p2 == 0 and p3 == 0 and p4 == 0 and p5 == 0 and aband == 0 and d0 == 0 and c0 == 0"}]
+    + [{"S": 2, "mode": "settings-cut", "_pre": "fc > 0 and fc <= 6 and sv == 3 and sa <= 4 and rst == 0 and ping == 0 and b0 == 0 and p2 == 0 and p3 == 0 and p4 == 0 and p5 == 0 and aband == 0 and d0 == 0 and c0 == 0"}, {"S": 2, "mode": "abandon", "_pre": "sv == 0 and rst == 0 and ping == 0 and aband > 0 and b0 in (1, 2, 3) and p2 == 0 and p3 == 0 and p4 == 0 and p5 == 0 and d0 == 0 and c0 == 0"}],
+    thorough=[{"S": 2, "mode": "settings-cut", "_pre": "fc > 0 and fc <= 6 and sv == 3 and sa <= 4 and rst == 0 and ping == 0 and b0 == 0 and p2 == 0 and p3 == 0 and p4 == 0 and p5 == 0 and aband == 0 and d0 == 0 and c0 == 0"}, {"S": 2, "mode": "abandon", "_pre": "sv == 0 and rst == 0 and ping == 0 and aband > 0 and b0 in (1, 2, 3) and p2 == 0 and p3 == 0 and p4 == 0 and p5 == 0 and d0 == 0 and c0 == 0"},
+              {"S": 3, "mode": "settings-cut", "_pre": "fc > 0 and sv == 3 and sa <= 6 and rst == 0 and ping == 0 and b0 == 0 and p3 == 0 and p4 == 0 and p5 == 0 and aband == 0 and d0 == 0 and c0 == 0"}]
+    + [{"S": 3, "mode": "all3", "_timeout": 900,
                "_pre": f"p0 == {a} and p1 == {b} and ping == 0 and rst == {r} and d0 == 0 and c0 == 0 and sv == 0 and b0 in (0, 3, 6) and aband <= 1"}
               for a in range(3) for b in range(3) for r in (0, 1, 2)]
     + [{"S": 3, "mode": "settings3", "_pre": f"rst == 0 and ping == 0 and p0 == {a} and p3 == 0 and p4 == 0 and p5 == 0 and d0 == 0 and c0 == 0 and sv > 0 and b0 in (0, 3)"} for a in range(3)]
@@ -138,16 +150,18 @@ class Script:
     + [{"S": 3, "mode": "limited", "adv": adv, "cold": cold, "_pre": "sv == 0 and rst == 0 and ping == 0 and b0 in (0, 3) and p3 == 0 and p4 == 0 and p5 == 0 and aband == 0"}
        for adv in (1, 2) for cold in (False, True)]
     + [{"S": 2, "mode": "all2", "_pre": f"p0 == {a} and d0 == 0 and c0 == 0"} for a in range(2)],
-    example=dict(p0=1, p1=0, p2=1, p3=0, p4=0, p5=0, b0=2, sa=1, sv=0, rst=0, ping=0, aband=0, d0=0, c0=0, cz=0),
+    example=dict(p0=1, p1=0, p2=1, p3=0, p4=0, p5=0, b0=2, sa=1, sv=0, rst=0, ping=0, aband=0, d0=0, c0=0, cz=0, fc=0),
     require=("C12:interleaved", "C12:all-complete", "C01:all-complete", "C02:all-complete", "C08:all-complete",
-             "C03:cancelled-outside-a-network-write"),
+             "C03:cancelled-outside-a-network-write", "C12:two-segments-in-flight", "C02:two-segments-in-flight",
+             "C01:two-segments-in-flight", "C15:abandoned", "C12:abandoned"),
     timeout={"quick": 300, "thorough": 1800},
     symbolic="merge order of the per-stream frame sequences (up to 6 picks), batch boundary b0, SETTINGS(MAX_CONCURRENT_STREAMS) position and value from {1,2,3,100,1000} (incl. below the number in flight) or a SETTINGS frame that changes another parameter only, RST_STREAM on one stream, PING position, which caller abandons its response, one deviation from the FIFO schedule, cancellation of the first caller at a scheduler step",
     bounds="S = 2 or 3 concurrent requests after a warm-up request on one HTTP/2 connection (prior knowledge), responses of HEADERS + 2 DATA frames",
     outside="more than 3 concurrent streams; CONTINUATION/push/priority frames; more than one schedule deviation",
     stubs=("strict h2 library in server role (raises on stream-limit or flow-control violations)", "server releases the next batch of frames whenever every client task is blocked"),
-    also=("C01", "C02", "C08", "C03"),
-    per_prop={"C03": {"quick": [{"S": 2, "mode": "cancel", "_pre": f"cz > 0 and sv == 0 and rst == 0 and ping == 0 and b0 == {b} and p2 == 0 and p3 == 0 and p4 == 0 and p5 == 0 and aband == 0 and d0 == 0 and c0 == 0"}
+    also=("C01", "C02", "C08", "C03", "C15"),
+    per_prop={"C15": {"quick": [{"S": 2, "mode": "abandon", "_pre": "sv == 0 and rst == 0 and ping == 0 and aband > 0 and b0 in (1, 2, 3) and p2 == 0 and p3 == 0 and p4 == 0 and p5 == 0 and d0 == 0 and c0 == 0"}], "thorough": [{"S": 2, "mode": "abandon", "_pre": "sv == 0 and rst == 0 and ping == 0 and aband > 0 and b0 in (1, 2, 3) and p2 == 0 and p3 == 0 and p4 == 0 and p5 == 0 and d0 == 0 and c0 == 0"}, {"S": 3, "mode": "abandon3", "_pre": "sv == 0 and rst == 0 and ping == 0 and aband > 0 and b0 in (1, 2, 3, 4) and p3 == 0 and p4 == 0 and p5 == 0 and d0 == 0 and c0 == 0"}]},
+              "C03": {"quick": [{"S": 2, "mode": "cancel", "_pre": f"cz > 0 and sv == 0 and rst == 0 and ping == 0 and b0 == {b} and p2 == 0 and p3 == 0 and p4 == 0 and p5 == 0 and aband == 0 and d0 == 0 and c0 == 0"}
                                 for b in (0, 4)],
                       "thorough": [{"S": S, "mode": "cancel", "_pre": f"cz > 0 and sv == {v} and rst == 0 and ping == 0 and b0 == {b} and p2 == 0 and p3 == 0 and p4 == 0 and p5 == 0 and aband == 0 and d0 == 0 and c0 == 0 and sa <= 5"}
                                    for S in (2, 3) for v in (0, 5) for b in (0, 4)]},
@@ -156,19 +170,21 @@ class Script:
                       "thorough": [{"S": 3, "mode": "order3", "_pre": f"sv == 0 and rst == 0 and ping == 0 and b0 == 0 and p0 == {a} and aband == 0 and d0 == 0 and c0 == 0"} for a in range(3)]
                       + [{"S": 2, "mode": "sched", "_pre": "sv == 0 and rst == 0 and ping == 0 and aband == 0 and b0 in (0, 2) and p2 == 0 and p3 == 0 and p4 == 0 and p5 == 0"}]},
               "C02": {"quick": [{"S": 2, "mode": "order", "_pre": f"sv == 0 and rst == 0 and ping == 0 and d0 == 0 and c0 == 0 and aband == 0 and p0 == {a} and p1 == {b}"}
-                                for a in (0, 1) for b in (0, 1)],
+                                for a in (0, 1) for b in (0, 1)] + [{"S": 2, "mode": "settings-cut", "_pre": "fc > 0 and fc <= 6 and sv == 3 and sa <= 4 and rst == 0 and ping == 0 and b0 == 0 and p2 == 0 and p3 == 0 and p4 == 0 and p5 == 0 and aband == 0 and d0 == 0 and c0 == 0"}],
                       "thorough": [{"S": 3, "mode": "order3", "_pre": f"sv == 0 and rst == 0 and ping == 0 and b0 == 0 and p0 == {a} and aband == 0 and d0 == 0 and c0 == 0"} for a in range(3)]}},
 )
 def streams(p0: int, p1: int, p2: int, p3: int, p4: int, p5: int, b0: int, sa: int, sv: int, rst: int, ping: int,
-            aband: int, d0: int, c0: int, cz: int) -> None:
+            aband: int, d0: int, c0: int, cz: int, fc: int) -> None:
     """
     pre: 0 <= p0 <= 2 and 0 <= p1 <= 2 and 0 <= p2 <= 2 and 0 <= p3 <= 2 and 0 <= p4 <= 2 and 0 <= p5 <= 2
     pre: 0 <= b0 <= 8 and 0 <= sa <= 9 and 0 <= sv <= 6 and 0 <= rst <= 3 and 0 <= ping <= 9 and 0 <= aband <= 3
-    pre: 0 <= d0 <= 30 and 0 <= c0 <= 2 and 0 <= cz <= 40
+    pre: 0 <= d0 <= 30 and 0 <= c0 <= 2 and 0 <= cz <= 40 and 0 <= fc <= 8
     post: _
     """
     S = shard("S", 2)
     if shard("mode", "") != "cancel" and cz != 0:
+        return
+    if shard("mode", "") != "settings-cut" and fc != 0:
         return
     if S == 2 and (p0 > 1 or p1 > 1 or p2 > 1 or p3 > 1 or p4 > 1 or p5 > 1 or rst > 2 or aband > 2):
         return
@@ -178,9 +194,9 @@ def streams(p0: int, p1: int, p2: int, p3: int, p4: int, p5: int, b0: int, sa: i
     picks = [ladder(x, 0, 2) for x in (p0, p1, p2, p3, p4, p5)]
     bb, saa, svv = ladder(b0, 0, 8), ladder(sa, 0, 9), ladder(sv, 0, 6)
     rr, pp, ab = ladder(rst, 0, 3), ladder(ping, 0, 9), ladder(aband, 0, 3)
-    dd, cc, czz = ladder(d0, 0, 30), ladder(c0, 0, 2), ladder(cz, 0, 40)
-    with concrete(bb, saa, svv, rr, pp, ab, dd, cc, czz, *picks):
-        _streams(S, picks, bb, saa, MAXS[svv], rr - 1, pp - 1, ab - 1, [(dd, cc)] if dd or cc else [], czz)
+    dd, cc, czz, fcc = ladder(d0, 0, 30), ladder(c0, 0, 2), ladder(cz, 0, 40), ladder(fc, 0, 8)
+    with concrete(bb, saa, svv, rr, pp, ab, dd, cc, czz, fcc, *picks):
+        _streams(S, picks, bb, saa, MAXS[svv], rr - 1, pp - 1, ab - 1, [(dd, cc)] if dd or cc else [], czz, fcc)
 
 
 def lost_at(su: typing.Any) -> int:
@@ -190,9 +206,11 @@ def lost_at(su: typing.Any) -> int:
 
 
 def _streams(S: int, picks: list[int], b0: int, settings_at: int, settings_val: int, rst_idx: int, ping_at: int,
-             abandon_idx: int, devs: list[tuple[int, int]], cancel_at: int = 0) -> None:
+             abandon_idx: int, devs: list[tuple[int, int]], cancel_at: int = 0, fcut: int = 0) -> None:
     adv, cold = shard("adv", None), shard("cold", False)
-    script = Script(S, picks, [b0], settings_at, settings_val, rst_idx, ping_at, warm=not cold)
+    script = Script(S, picks, [b0], settings_at, settings_val, rst_idx, ping_at, warm=not cold, fcut=fcut)
+    if fcut:
+        P.cover("two-segments-in-flight")
     su = Setup("h2prior", True, max_connections=1, h2_policy=script,
                h2_settings={h2.settings.SettingCodes.MAX_CONCURRENT_STREAMS: adv} if adv else None)
     sig = "h2s"
@@ -239,6 +257,13 @@ def _streams(S: int, picks: list[int], b0: int, settings_at: int, settings_val: 
     # -------- each caller receives exactly its own stream
     for prop in ("C12", "C01", "C02", "C08"):
         token_oracle(callers, prop, sig)
+    if abandon_idx >= 0:
+        P.cover("abandoned")
+    # C15: whatever the others do with their responses, a caller is only ever told a documented exception
+    for c in callers:
+        if c.exc is not None and not isinstance(c.exc, vrt.Cancelled):
+            o = scen.Outcome(exc=c.exc)
+            P.check(o.documented(), "documented-exception-type", lambda: f"{sig}:undocumented:{o.kind()}", prop="C15")
     if cancel_at:
         # C03: a caller that is cancelled anywhere but inside a network write (at a lock, a semaphore, a read) has not
         # lost a byte that the HTTP/2 state machine regards as sent: what the *other* callers then put on the wire must
